@@ -4550,6 +4550,31 @@ fn check_snippet(src: &str, path: PathBuf, env: &Env) -> Value {
         error_messages.push_back_mut(Value::new(Value_::String(err.message().as_string())));
     }
 
+    if env.enforce_sandbox {
+        // Checking the snippet loads the files it imports. Sandboxed
+        // code must not make us read files of its choosing, so only
+        // built-in files may be imported here.
+        let mut refused_import = false;
+        for item in &items {
+            if let ToplevelItem::Import(import_info) = item {
+                if !import_info.path.display().to_string().starts_with("__") {
+                    refused_import = true;
+                    error_messages.push_back_mut(Value::new(Value_::String(format!(
+                        "Cannot import `{}` in sandboxed mode.",
+                        import_info.path.display()
+                    ))));
+                }
+            }
+        }
+
+        if refused_import {
+            return Value::err(Value::new(Value_::List {
+                items: error_messages,
+                elem_type: Type::string(),
+            }));
+        }
+    }
+
     for Diagnostic {
         message, severity, ..
     } in check_toplevel_items(&vfs_path, &items, &check_env)
